@@ -293,6 +293,35 @@ func runPermits(o *Out, r *rand.Rand, thorough bool, _ []string) {
 		}
 	}
 
+	// (3a) an accepted transfer whose dial nobody answers: the ACCEPT names a connection id - any 16-bit value, the ends of the
+	// range included -; the sending goroutine gives up at the connect timeout (15 s; a Stop() in between does not shorten it) and
+	// the slot is back. The four cases wait side by side.
+	if !metricsOn {
+		cids := []uint16{0, 1, 0xffff, uint16(2 + r.Intn(65000))}
+		lines := make([][2]string, len(cids))
+		var wg sync.WaitGroup
+		for ci, cid := range cids {
+			version := uint8(cid % 2)
+			sn := startNode(mn, r, nodeOpts{ip: net.IP{34, 5, 8, byte(1 + ci)}, port: 9830 + ci, versions: []uint8{0, 1}, utpLimit: limit, noWorkers: true})
+			target := signRecPad(keyFromSeed(r), net.IP{34, 8, 10, byte(1 + ci)}, 7301, 1, 0)
+			sn.p.VerifVersionsCacheSet(target, version)
+			req := mkReq(2)
+			wg.Add(1)
+			go func() {
+				defer wg.Done()
+				permit, _ := sn.p.Utp.GetOutboundPermit()
+				_, err := sn.p.VerifProcessOffer(target, acceptBytes(version, make([]uint8, 2), cid), req, permit)
+				free := waitFree(sn, false, limit, 19*time.Second)
+				lines[ci] = [2]string{fmt.Sprintf("procoffer kind=accepted_dial_unanswered v=%d limit=%d cid=%d", version, limit, cid), fmt.Sprintf("%s free=%d", errStr(err), free)}
+				sn.stop()
+			}()
+		}
+		wg.Wait()
+		for _, l := range lines {
+			o.Case(l[0], l[1])
+		}
+	}
+
 	// (3b) shutdown between the ACCEPT and the transfer: the reply of an offer that was sent before Stop() is processed
 	// after it; the transfer goroutine finds its context cancelled - the slot must come back on that exit too
 	for _, version := range []uint8{0, 1} {
